@@ -6,7 +6,7 @@
 //!
 //! case : `<kind> <root> <format> <payload> <registry>`   (see lean/Driver/Codec.lean)
 //! out  : `wrote <hex> <value|unreadable>` | `ser-error` | `accepted <value> <hex> <0|1>` | `rejected`
-//!        | `bad-case <why>` | `panic <class>`
+//!        | `unbuildable <why>` | `unstable <value>` | `bad-case <why>` | `panic <class>`
 //!
 //! Every `gen*` / `run` invocation traces the registries afresh by calling `TypeGen::register_app::<App>()` exactly
 //! as a `shared_types/build.rs` does, then takes the `serde_reflection::Registry` the way `TypeGen::ensure_registry`
@@ -591,7 +591,7 @@ fn run_val<T: Serialize + DeserializeOwned>(v: &Uv) -> String {
     };
     match to_uv(&t) {
         Ok(back) if back == *v => {}
-        Ok(back) => return format!("bad-case value-print-unstable {back}"),
+        Ok(back) => return format!("unstable {back}"),
         Err(_) => return "ser-error".into(),
     }
     let bytes = match bridge_options().serialize(&t) {
